@@ -37,7 +37,7 @@ def required_cells(tier):
     return {"env:ancilla": 6, "env:pttempo": 2, "nenv:1": 3, "nenv:2": 3,
             "nenv:3": 1, "M:1": 1, "M:2": 1, "M:3": 1, "N:1": 1,
             "dissipator:param": 3, "deriv:user": 2, "deriv:numeric": 3,
-            "target:callable": 2, "target:array": 3, "history:two-dt": 1, "lastbond:closed": 2, "lastbond:cap": 2,
+            "target:callable": 2, "target:array": 3, "history:two-dt": 1, "params:structured": 3, "lastbond:closed": 2, "lastbond:cap": 2,
             "gradient_entries_compared": 100}
 
 
@@ -194,6 +194,14 @@ def run_ancilla(case):
         pts = [ancilla.build_process_tensor(e, nsteps, dt=dt) for e in envs]
     rho0 = gen.rand_state(rng, d)
     params = rng.normal(size=(2 * nsteps, m)) * 0.7
+    # structured tables: some controls held constant over a full step (both
+    # halves equal) while others vary per half step; some steps fully constant
+    structured = bool(i % 4 == 2)
+    if structured:
+        for k in range(nsteps):
+            params[2 * k + 1, 0] = params[2 * k, 0]
+        if nsteps >= 2:
+            params[3, :] = params[2, :]
     sig1, sig2 = gen.rand_herm(rng, d), gen.rand_herm(rng, d)
     target = gen.cplx(rng, (d, d))
 
@@ -241,6 +249,8 @@ def run_ancilla(case):
               "lastbond:" + ("closed" if closed else "cap"),
               "deriv:" + ("user" if user else "numeric"),
               "target:" + ("callable" if callable_target else "array")]
+    if structured:
+        cells.append("params:structured")
     if nsteps == 1:
         cells.append("N:1")
     if param_diss:
